@@ -768,6 +768,69 @@ impl Property for C04 {
             );
         out.nontrivial = !wellformed_expected;
         out.fail = run_bytes(case, &mut out);
+        if out.fail.is_none() {
+            let h = crate::driver::case_hash(case);
+            out.fail = acks_for_exchanges_of_an_earlier_connection((h % 4) as u8, (h / 4 % 6) as u8);
+            out.class("acknowledgements-for-exchanges-of-an-earlier-connection");
+        }
         out
     }
+}
+
+/// The Context served an earlier connection that ended with a QoS 1 publish unacknowledged and a
+/// QoS 2 publish between its phases; it is set up and connected again (no hook, so nothing is
+/// resumed) and the new server acknowledges those old identifiers, unknown ones, and the same one
+/// twice, in some order. No packet order can panic or end run() with anything but an error.
+fn acks_for_exchanges_of_an_earlier_connection(receive_max: u8, order: u8) -> Option<Failure> {
+    use crate::world::World;
+    let plan = WritePlan::default();
+    let mut w = World::new();
+    if connect_and_run(&mut w, ConnectSpec::default(), &default_connack(), &plan).is_err() {
+        return None;
+    }
+    let mut tr = Tracker::new();
+    tr.skip_existing(&mut w);
+    let a = w.start_op(0, OpSpec::Publish(tagged_publish(1, 1)))?;
+    let b = w.start_op(0, OpSpec::Publish(tagged_publish(2, 2)))?;
+    settle(&mut w, &plan, false);
+    tr.update(&mut w);
+    let (pa, pb) = (tr.pid(a)?, tr.pid(b)?);
+    feed_packet(&mut w, &rc::Packet::Pubrec(rc::Ack { pid: pb, ..Default::default() }), &rc::Form::short());
+    settle(&mut w, &plan, false);
+    w.tick();
+    w.reader.set_eof();
+    settle(&mut w, &plan, false);
+    if w.run_result.is_none() || !w.set_up_again() {
+        return None;
+    }
+    let connack = rc::Connack { receive_maximum: [None, Some(65_535u16), Some(1), Some(2)][receive_max as usize % 4], ..Default::default() };
+    if connect_and_run(&mut w, ConnectSpec::default(), &connack, &plan).is_err() {
+        return None;
+    }
+    let acks = [
+        rc::Packet::Puback(rc::Ack { pid: pa, ..Default::default() }),
+        rc::Packet::Pubcomp(rc::Ack { pid: pb, ..Default::default() }),
+        rc::Packet::Puback(rc::Ack { pid: pa, ..Default::default() }),
+        rc::Packet::Pubrec(rc::Ack { pid: pb, ..Default::default() }),
+        rc::Packet::Puback(rc::Ack { pid: 999, ..Default::default() }),
+        rc::Packet::Pubcomp(rc::Ack { pid: 999, ..Default::default() }),
+    ];
+    for i in 0..acks.len() {
+        let k = (i + order as usize) % acks.len();
+        feed_packet(&mut w, &acks[if order % 2 == 0 { k } else { acks.len() - 1 - k }], &rc::Form::short());
+        settle(&mut w, &plan, false);
+    }
+    // and a publish of the new connection still goes through the motions
+    let c = w.start_op(0, OpSpec::Publish(tagged_publish(3, 1)));
+    settle(&mut w, &plan, false);
+    let _ = c;
+    for (who, m) in &w.panics {
+        if !tolerated_panic(m) {
+            return Some(Failure {
+                sig: format!("C04/panic/{}", panic_sig(m)),
+                msg: format!("panic in {who} when the new server acknowledged exchanges of the earlier connection (Receive Maximum variant {receive_max}, order {order}): {m}"),
+            });
+        }
+    }
+    None
 }
